@@ -227,7 +227,7 @@ func checkMath(fn string, a system.Any, o Outcome) string {
 }
 
 func runC08(c *Ctx) {
-	c.meta.Rule = "operand pairs: the full Integer boundary set squared (exhaustive), then random int32, decimals (0..30 fractional digits, up to 40 significant digits, ties, zero, both signs) and mixed pairs, each operand as a System value or a FHIR integer/positiveInt/unsignedInt/decimal element; every operator, unary minus, abs/ceiling/floor/truncate/round; non-trivial = both operands numeric; distinct by (op, operands)"
+	c.meta.Rule = "operand pairs: the full Integer boundary set squared (exhaustive), ~2000 decimal pairs whose quotient / remainder / rounding lies within 10^-14 .. 10^-25 of an integer or of a tie (exhaustive), then random int32, decimals (0..30 fractional digits, up to 40 significant digits, ties, zero, both signs) and mixed pairs, each operand as a System value or a FHIR integer/positiveInt/unsignedInt/decimal element; every operator, unary minus, abs/ceiling/floor/truncate/round; non-trivial = both operands numeric; distinct by (op, operands)"
 	input := []fhir.Resource{mustResource(`{"resourceType":"Patient","id":"p"}`)}
 	n := 4000
 	if c.thorough {
@@ -240,6 +240,32 @@ func runC08(c *Ctx) {
 			pairs = append(pairs, pair{system.Integer(a), system.Integer(b)})
 		}
 	}
+	// decimals whose quotient, remainder or rounding lies within 10^-k of an integer or of a tie:
+	// where an implementation that rounds an intermediate result (16 places, float64) goes wrong
+	dec := func(s string) system.Any { return system.Decimal(decimal.RequireFromString(s)) }
+	for _, k := range []int{14, 15, 16, 17, 18, 20, 25} {
+		eps := "0." + strings.Repeat("0", k-1) + "1"
+		nines := "0." + strings.Repeat("9", k)
+		for _, q := range []string{"0", "1", "5", "6", "-1", "-3", "46341", "2147483647", "-2147483648"} {
+			qd := decimal.RequireFromString(q)
+			below, above := qd.Sub(decimal.RequireFromString(eps)), qd.Add(decimal.RequireFromString(eps))
+			for _, a := range []decimal.Decimal{below, above, qd.Add(decimal.RequireFromString("0.5")).Sub(decimal.RequireFromString(eps)), qd.Add(decimal.RequireFromString("0.5")).Add(decimal.RequireFromString(eps)), qd.Add(decimal.RequireFromString("0.5"))} {
+				for _, b := range []system.Any{system.Integer(1), dec("1.0"), system.Integer(-1), system.Integer(3), dec("0.7"), dec("1.25")} {
+					bd := decimal.NewFromInt(1)
+					switch v := b.(type) {
+					case system.Integer:
+						bd = decimal.NewFromInt(int64(v))
+					case system.Decimal:
+						bd = decimal.Decimal(v)
+					}
+					pairs = append(pairs, pair{system.Decimal(a.Mul(bd)), b})
+				}
+			}
+		}
+		pairs = append(pairs, pair{system.Integer(1), dec("1" + eps[1:])}, pair{system.Integer(-1), dec("1" + eps[1:])}, pair{dec(nines), system.Integer(1)}, pair{dec("-" + nines), dec("1.0")},
+			pair{dec("5" + nines[1:]), dec("1.0")}, pair{dec("-2" + nines[1:]), system.Integer(1)}, pair{system.Integer(2), dec("3" + eps[1:])}, pair{dec("1" + eps[1:]), dec("1" + eps[1:])})
+	}
+	exhaustive := len(pairs)
 	for i := 0; i < n; i++ {
 		var a, b system.Any
 		switch c.rng.Intn(4) {
@@ -280,7 +306,7 @@ func runC08(c *Ctx) {
 	for pi, p := range pairs {
 		ea, eb := asElement(c.rng, p.a), asElement(c.rng, p.b)
 		for _, op := range arithOps {
-			if pi >= len(intBoundary)*len(intBoundary) && c.rng.Intn(3) != 0 {
+			if pi >= exhaustive && c.rng.Intn(3) != 0 {
 				continue
 			}
 			o := evalWith("%a "+op.src+" %b", ea, eb)
